@@ -35,9 +35,14 @@
 	VP_WTYPE_OK (nsync_writer_type_) && VP_RTYPE_OK (nsync_reader_type_))
 
 /* ghost fields a step on the mutex word may write */
+#ifdef VP_G_WHOLE
+#define VP_G_STEP vp_g
+#define VP_G_ALL vp_g
+#else
 #define VP_G_STEP vp_g.hold, vp_g.spin, vp_g.waited, vp_g.dead, vp_g.set_desig, vp_g.longw_set, vp_g.enq_long, vp_g.enq_count, vp_g.last_new
 /* ... plus those written through the waiting flag and the semaphore stubs */
-#define VP_G_ALL VP_G_STEP, vp_g.queued, vp_g.p_calls, vp_g.v_calls, vp_g.cond_evals
+#define VP_G_ALL VP_G_STEP, vp_g.queued, vp_g.p_calls, vp_g.v_calls, vp_g.cond_evals, vp_g.last_cond, vp_g.last_sem_outcome
+#endif
 
 #define VP_IS_LTYPE(t) ((t) == nsync_writer_type_ || (t) == nsync_reader_type_)
 #define VP_HOLD_OF(t) ((t) == nsync_writer_type_ ? VP_WRITER : VP_READER)
@@ -74,21 +79,22 @@ __CPROVER_assigns (VP_G_STEP, mu->word);
 void nsync_mu_lock (nsync_mu *mu)
 __CPROVER_requires (VP_TYPES_OK () && VP_MU_IS (mu) && VP_IDLE () && !vp_g.waited && !vp_g.queued)
 __CPROVER_ensures (vp_g.hold == VP_WRITER && !vp_g.spin && !vp_g.dead)
-__CPROVER_assigns (VP_G_ALL, vp_fw, vp_reg.my_waiting, mu->word, mu->waiters);
+__CPROVER_assigns (VP_G_ALL, vp_fw, vp_my_w, vp_reg.my_waiting, mu->word, mu->waiters);
 
 void nsync_mu_rlock (nsync_mu *mu)
 __CPROVER_requires (VP_TYPES_OK () && VP_MU_IS (mu) && VP_IDLE () && !vp_g.waited && !vp_g.queued)
 __CPROVER_ensures (vp_g.hold == VP_READER && !vp_g.spin && !vp_g.dead)
-__CPROVER_assigns (VP_G_ALL, vp_fw, vp_reg.my_waiting, mu->word, mu->waiters);
+__CPROVER_assigns (VP_G_ALL, vp_fw, vp_my_w, vp_reg.my_waiting, mu->word, mu->waiters);
 
 /* this thread's waiter record: fresh, and its waiting flag is the one under the waiting-flag protocol */
 waiter *nsync_waiter_new_ (void)
-__CPROVER_ensures (__CPROVER_is_fresh (__CPROVER_return_value, sizeof (waiter)))
-__CPROVER_ensures (vp_reg.my_waiting == &__CPROVER_return_value->nw.waiting)
+__CPROVER_ensures (__CPROVER_return_value == &vp_my_w)
+__CPROVER_ensures (vp_reg.my_waiting == &vp_my_w.nw.waiting)
 __CPROVER_assigns (vp_reg.my_waiting);
 
 void nsync_waiter_free_ (waiter *w)
 __CPROVER_requires (w != NULL)
+__CPROVER_ensures (1)
 __CPROVER_assigns ();
 
 /* release functions; C13: with vp_g.release_ctx set, the hooks mark the mutex dead at the step after
@@ -96,7 +102,9 @@ __CPROVER_assigns ();
 void nsync_mu_unlock_slow_ (nsync_mu *mu, lock_type *l_type)
 __CPROVER_requires (VP_TYPES_OK () && VP_IS_LTYPE (l_type) && VP_MU_IS (mu))
 __CPROVER_requires (vp_g.hold == VP_HOLD_OF (l_type) && !vp_g.spin && !vp_g.dead)
-__CPROVER_ensures (vp_g.hold == VP_NONE && !vp_g.spin)
+__CPROVER_ensures (vp_g.hold == VP_NONE && !vp_g.spin && (!vp_g.dead || vp_g.release_ctx))
+__CPROVER_ensures (vp_g.queued == __CPROVER_old (vp_g.queued) && vp_g.waited == __CPROVER_old (vp_g.waited))
+__CPROVER_ensures (vp_g.p_calls == __CPROVER_old (vp_g.p_calls) && vp_g.last_sem_outcome == __CPROVER_old (vp_g.last_sem_outcome))
 __CPROVER_assigns (VP_G_ALL, vp_fw, mu->word, mu->waiters);
 
 void nsync_mu_unlock (nsync_mu *mu)
@@ -109,6 +117,60 @@ __CPROVER_requires (VP_TYPES_OK () && VP_MU_IS (mu) && vp_g.hold == VP_READER &&
 __CPROVER_ensures (vp_g.hold == VP_NONE && !vp_g.spin)
 __CPROVER_assigns (VP_G_ALL, vp_fw, mu->word, mu->waiters);
 
-uint32_t nsync_spin_test_and_set_ (nsync_atomic_uint32_ *w, uint32_t test, uint32_t set, uint32_t clear);
+/* Spin until (*w & test) == 0, then *w = (*w | set) & ~clear with acquire order.  On the mutex word it is used
+   only to take the queue spinlock (possibly announcing a waiter): the caller must not own the spinlock. */
+uint32_t nsync_spin_test_and_set_ (nsync_atomic_uint32_ *w, uint32_t test, uint32_t set, uint32_t clear)
+__CPROVER_requires (w != NULL && __CPROVER_rw_ok (w, sizeof (*w)))
+__CPROVER_requires (w != vp_reg.mu_word ||
+		    ((test & MU_SPINLOCK) != 0 && (set & MU_SPINLOCK) != 0 && !vp_g.spin && !vp_g.dead &&
+		     (set & ~(MU_SPINLOCK | MU_WAITING | MU_CONDITION)) == 0 && (clear & ~MU_ALL_FALSE) == 0 &&
+		     (test & ~MU_SPINLOCK) == 0 && !(vp_g.hold == VP_NONE && vp_g.waited) &&
+		     (!vp_g.observer || (set == MU_SPINLOCK && clear == 0))))
+__CPROVER_ensures ((__CPROVER_return_value & test) == 0)
+__CPROVER_ensures (w != vp_reg.mu_word ||
+		   (vp_g.spin == 1 && !vp_g.dead && vp_g.hold == __CPROVER_old (vp_g.hold) && vp_g.waited == __CPROVER_old (vp_g.waited) &&
+		    vp_g.queued == __CPROVER_old (vp_g.queued) && vp_g.set_desig == __CPROVER_old (vp_g.set_desig)))
+__CPROVER_assigns (*w, vp_g.spin, vp_g.enq_count, vp_g.enq_long, vp_g.last_new);
+
+void nsync_mu_unlock_without_wakeup (nsync_mu *mu)
+__CPROVER_requires (VP_TYPES_OK () && VP_MU_IS (mu) && vp_g.hold == VP_WRITER && !vp_g.spin && !vp_g.dead)
+__CPROVER_ensures (vp_g.hold == VP_NONE && !vp_g.spin)
+__CPROVER_assigns (VP_G_ALL, vp_fw, mu->word, mu->waiters);
+
+/* queue-link helper, abstracted in word-level proofs (its exact behaviour on the links is proved under C06/C17) */
+nsync_dll_list_ nsync_remove_from_mu_queue_ (nsync_dll_list_ mu_queue, nsync_dll_element_ *e)
+__CPROVER_requires (e != NULL)
+__CPROVER_ensures (1)
+__CPROVER_assigns ();
+
+/* queue-link helper, abstracted in word-level proofs: no effect on the word or on this thread's ghost */
+void nsync_maybe_merge_conditions_ (nsync_dll_element_ *p, nsync_dll_element_ *n)
+__CPROVER_requires (1)
+__CPROVER_ensures (1)
+__CPROVER_assigns ();
+
+/* sleeps on the thread's semaphore until posted, the deadline, or the note: touches no mutex word */
+int nsync_sem_wait_with_cancel_ (waiter *w, nsync_time abs_deadline, nsync_note cancel_note)
+__CPROVER_requires (w != NULL)
+__CPROVER_ensures (__CPROVER_return_value == 0 || __CPROVER_return_value == ETIMEDOUT || __CPROVER_return_value == ECANCELED)
+__CPROVER_ensures (vp_g.p_calls == __CPROVER_old (vp_g.p_calls) + 1u && vp_g.last_sem_outcome == __CPROVER_return_value)
+__CPROVER_assigns (vp_g.p_calls, vp_g.last_sem_outcome);
+
+#define VP_PRE_MU_WAIT(mu, condition) (VP_TYPES_OK () && VP_MU_IS (mu) && (vp_g.hold == VP_READER || vp_g.hold == VP_WRITER) && \
+	!vp_g.spin && !vp_g.dead && !vp_g.waited && !vp_g.queued && !vp_g.observer && !vp_g.release_ctx && \
+	((condition) == NULL || (condition) == vp_condition))
+#define VP_POST_MU_WAIT_HOLD(old_hold) (vp_g.hold == (old_hold) && !vp_g.spin && !vp_g.dead)
+#define VP_POST_MU_WAIT_RESULT(ret, condition) (((ret) == 0 || (ret) == ETIMEDOUT || (ret) == ECANCELED) && \
+	(((ret) == 0) == ((condition) == NULL || vp_g.last_cond != 0)) && \
+	((ret) == 0 || (ret) == vp_g.last_sem_outcome))
+/* C01/C05: returns holding the mutex in the mode in which it was held on entry; 0 exactly when the condition's last
+   evaluation (made by this thread, holding the mutex, as the last thing before returning) was true; a non-zero result is the
+   outcome of this call's own timed / cancellable sleep.  C06: the condition is only evaluated with the mutex held. */
+int nsync_mu_wait_with_deadline (nsync_mu *mu, int (*condition) (const void *condition_arg), const void *condition_arg,
+				 int (*condition_arg_eq) (const void *a, const void *b), nsync_time abs_deadline, nsync_note cancel_note)
+__CPROVER_requires (VP_PRE_MU_WAIT (mu, condition))
+__CPROVER_ensures (VP_POST_MU_WAIT_HOLD (__CPROVER_old (vp_g.hold)))
+__CPROVER_ensures (VP_POST_MU_WAIT_RESULT (__CPROVER_return_value, condition))
+__CPROVER_assigns (VP_G_ALL, vp_fw, vp_my_w, vp_reg.my_waiting, mu->word, mu->waiters);
 
 #endif
